@@ -6,7 +6,8 @@
    push_validator_addrs batches (each under its own schedule, from any peer) and own
    announcements; [chk] = overflow checks of the build.  Signatures are the terms of H-SIG. *)
 From Coq Require Import ZArith List Permutation.
-From EC Require Import Lib.Outcome Lib.U64 Model.AddrBook Proofs.AddrBookProofs Proofs.AddrBookHistory.
+From EC Require Import Lib.Outcome Lib.U64 Model.AddrBook Proofs.AddrBookProofs Proofs.AddrBookHistory
+  Proofs.AddrBookGossip Proofs.AddrBookCommittee.
 Import ListNotations.
 Open Scope Z_scope.
 
@@ -173,6 +174,108 @@ Proof.
   eexists _, _, _. split; [exact H1|]. rewrite H2, H3. discriminate.
 Qed.
 Print Assumptions C18_convergence_needs_unique_stamps.
+
+(* ---- what is pushed to peers (ValidatorAddrs::get_newer, the push loop of gossip/runner.rs) ---- *)
+
+(* For a connection whose last pushed state [old] is an earlier state of the node's book: the next
+   push consists exactly of the entries that changed since, and each of them is strictly newer
+   than what the peer was sent for that key. *)
+Theorem C18_pushed_exactly_news : forall new old e, ssorted new -> grows old new ->
+  (In e (get_newer new old) <->
+   get (ekey e) new = Some e /\ get (ekey e) old <> Some e) /\
+  (In e (get_newer new old) -> forall x, get (ekey e) old = Some x -> newer (emsg e) (emsg x)).
+Proof. exact pushed_exactly_news. Qed.
+Print Assumptions C18_pushed_exactly_news.
+
+(* Two honest nodes A, B connected both ways; [run_sys c sys0 ls] = the state after any
+   interleaving [ls] of requests from other peers (LInject: any batches, forged ones included),
+   diffs computed and sent (LSend) and requests served (LDeliver), one request in flight per
+   direction.  In every reachable state the premises of the statement above hold for A -> B: *)
+Theorem C18_gossip_push_exact : forall c ls s e,
+  run_sys c sys0 ls = Some s ->
+  (In e (get_newer (bA s) (oAB s)) <-> get (ekey e) (bA s) = Some e /\ get (ekey e) (oAB s) <> Some e) /\
+  (In e (get_newer (bA s) (oAB s)) -> forall x, get (ekey e) (oAB s) = Some x -> newer (emsg e) (emsg x)).
+Proof. exact gossip_push_exact. Qed.
+Print Assumptions C18_gossip_push_exact.
+
+(* ... and everything held or pushed is an announcement some peer sent, validly signed by a member. *)
+Theorem C18_gossip_authentic : forall c ls s e,
+  run_sys c sys0 ls = Some s ->
+  (In e (bA s) \/ In e (bB s) \/ In e (get_newer (bA s) (oAB s)) \/ In e (get_newer (bB s) (oBA s))) ->
+  In e (injected ls) /\ verify e = true /\ mem (ekey e) c = true.
+Proof. exact gossip_authentic. Qed.
+Print Assumptions C18_gossip_authentic.
+
+(* convergence through pushes: whenever the exchange is at rest the two books are equal *)
+Theorem C18_gossip_convergent : forall c ls s,
+  run_sys c sys0 ls = Some s -> quiescent s ->
+  unique_stamps (filter (wanted c) (injected ls)) ->
+  bA s = bB s.
+Proof. exact gossip_convergent. Qed.
+Print Assumptions C18_gossip_convergent.
+
+(* ... and rest is reached: from every reachable state at most eight steps of the two push loops
+   (no further outside traffic) lead to a quiescent state, hence to equal books. *)
+Theorem C18_gossip_settles : forall c ls s, run_sys c sys0 ls = Some s ->
+  exists ls' s', (length ls' <= 8)%nat /\ injected ls' = [] /\
+    run_sys c sys0 (ls ++ ls') = Some s' /\ quiescent s' /\
+    (unique_stamps (filter (wanted c) (injected ls)) -> bA s' = bB s').
+Proof. exact gossip_settles. Qed.
+Print Assumptions C18_gossip_settles.
+
+Example C18_gossip_nonvacuous :
+  let v k a ver := sign k {| na_addr := a; na_version := ver; na_ts := 0 |} in
+  let ls := [LInject true [v 0 5 1; v 1 6 1]; LSend true; LInject false [v 1 7 2; mk_entry 0 9 9 9 1 9 9 9];
+             LInject false [v 1 7 2]; LDeliver true; LSend false; LDeliver false; LSend true; LDeliver true] in
+  exists s, run_sys [0; 1] sys0 ls = Some s /\ quiescent s /\
+            bA s = [v 0 5 1; v 1 7 2] /\ bB s = [v 0 5 1; v 1 7 2].
+Proof. exact gossip_example. Qed.
+
+(* ---- committee changes: every batch is processed under the schedule of its time ---- *)
+
+Theorem C18_run_updatesC_is_run : forall chk bs b,
+  run_updatesC b bs = run chk b (map (fun cd => OUpdate (fst cd) (snd cd)) bs).
+Proof. exact run_updatesC_run. Qed.
+Print Assumptions C18_run_updatesC_is_run.
+
+(* the book is per key the newest validly signed announcement accepted while the key was a member *)
+Theorem C18_book_is_newest_seen_any_schedules : forall bs k,
+  match get k (run_updatesC [] bs) with
+  | Some e => In e (seenC [] bs) /\
+              forall e', In e' (seenC [] bs) -> ekey e' = k -> ~ newer (emsg e') (emsg e)
+  | None => forall e', In e' (seenC [] bs) -> ekey e' <> k
+  end.
+Proof. exact book_is_newest_seenC. Qed.
+Print Assumptions C18_book_is_newest_seen_any_schedules.
+
+(* two nodes, each with its own sequence of schedules, dial the same address for k as soon as the
+   same announcements of k were accepted by both while k was a member *)
+Theorem C18_book_convergent_any_schedules : forall bs1 bs2 k,
+  (forall e, ekey e = k -> (In e (seenC [] bs1) <-> In e (seenC [] bs2))) ->
+  unique_stamps_of k (seenC [] bs1) ->
+  dial (run_updatesC [] bs1) k = dial (run_updatesC [] bs2) k.
+Proof.
+  intros bs1 bs2 k H1 H2. unfold dial. rewrite (book_convergentC_key bs1 bs2 k H1 H2). reflexivity.
+Qed.
+Print Assumptions C18_book_convergent_any_schedules.
+
+(* a key that left the schedule keeps its entry, frozen, whatever is sent later *)
+Theorem C18_left_committee_frozen : forall bs b k,
+  (forall c d, In (c, d) bs -> mem k c = false) ->
+  get k (run_updatesC b bs) = get k b.
+Proof. exact left_committee_frozen. Qed.
+Print Assumptions C18_left_committee_frozen.
+
+(* without the premise of C18_book_convergent_any_schedules the point of the switch is visible:
+   same announcements, same order, schedule [0;1] -> [0;2] one batch earlier at the second node *)
+Theorem C18_committee_switch_point_matters :
+  exists bs1 bs2, map snd bs1 = map snd bs2 /\
+    dial (run_updatesC [] bs1) 1 <> dial (run_updatesC [] bs2) 1.
+Proof.
+  destruct committee_switch_point_matters_wit as (H1 & _ & H3 & _).
+  eexists _, _. split; [|rewrite H1, H3; discriminate]. reflexivity.
+Qed.
+Print Assumptions C18_committee_switch_point_matters.
 
 (* Non-vacuity.  A batch with a valid newer announcement of key 2 followed by a forged newer
    announcement of key 0: the working copy already holds key 2's entry, the call fails, the
